@@ -167,6 +167,7 @@ SKELETONS = [
     ('compare-response+critical-control', msg(6, result_op(15, 6), [ctrl(b'1.2', True, b'v'), ctrl(b'2.16.840.1.113730.3.4.2')])),
     ('notice-of-disconnection(AD form)', T(0, 16, T(0, 2, p=[0]), result_op(24, 52), T(2, 10, p=b'1.3.6.1.4.1.1466.20036'))),
     ('intermediate-response', msg(7, T(1, 25, T(2, 0, p=b'1.3.6.1.4.1.4203.1.9.1.4'), T(2, 1, p=[0x80, 0])))),
+    ('search-done', msg(2, result_op(5, 0, b'', b''))),
 ]
 
 
@@ -352,12 +353,12 @@ class RecursionDepth(Lane):
 
 def body(chk):
     quick = chk.tier == 'quick'
-    for n in ((1, 2, 3, 4, 5, 6) if quick else tier_param('C11A', (1, 2, 3, 4, 5, 6, 7, 8))):
+    for n in ((1, 2, 3, 4, 5, 6) if quick else tier_param('C11A', (1, 2, 3, 4, 5, 6, 7))):
         run_lane(chk, Arbitrary, (n,), bounds={'raw bytes': n}, selftest=(n == 4), need_regions=(('some',) if n >= 6 else ()))
     for si in range(len(SKELETONS)):
         run_lane(chk, Mutation, (si, 1), bounds={'skeleton': SKELETONS[si][0], 'bytes': len(ber.py_encode(SKELETONS[si][1])), 'symbolic positions': 'every single position, all 256 values'}, selftest=False)
     if not quick:
-        for si in tier_param('C11K2', list(range(len(SKELETONS)))):
+        for si in tier_param('C11K2', [0, 3, 10]):
             run_lane(chk, Mutation, (si, 2), bounds={'skeleton': SKELETONS[si][0], 'symbolic positions': 'every pair of positions, all 65536 values'}, selftest=False)
     lv = 600 if quick else 1500
     run_lane(chk, RecursionDepth, (lv, 2), bounds={'nested TLVs': lv, 'symbolic identifier octets': 2, 'safe depth': RecursionDepth.SAFE, 'native nesting replay': '400000 levels (< 1 MB)'}, selftest=False)
